@@ -65,6 +65,8 @@ pub struct Spec {
     pub started_err_at: Vec<u32>,
     /// sleep units inside Tick/Topic/Bcast/Unit/Item handlers
     pub aux_work: u64,
+    /// sleep units inside Tick handlers (kept separate: a slow tick handler under a fast interval is overload)
+    pub tick_work: u64,
     /// yield once inside aux handlers (always-ready streams need it)
     pub aux_yield: bool,
 }
@@ -292,8 +294,9 @@ impl<const KK: usize> Probe<KK> {
         if self.spec.aux_yield {
             rt::yield_now().await;
         }
-        if self.spec.aux_work > 0 {
-            rt::sleep(self.spec.aux_work).await;
+        let work = if mk == Mk::Tick { self.spec.tick_work } else { self.spec.aux_work };
+        if work > 0 {
+            rt::sleep(work).await;
         }
         self.exit(g);
     }
